@@ -271,7 +271,36 @@ func (g *vcgen) lin(v ssa.Value) string {
 					return a
 				}
 			}
+		case token.SHR:
+			// x >> k = ⌊x / 2^k⌋ (arithmetic shift; Lean's Int division by a positive literal is the floor)
+			if c, ok := constInt(x.Y); ok && c >= 0 && c < 62 {
+				if isInt, _, _ := intInfo(x.Type()); isInt {
+					return "(" + g.lin(x.X) + " / " + lit(int64(1)<<uint(c)) + ")"
+				}
+			}
+		case token.SHL:
+			// x << k = x · 2^k while it fits (signed: treated as unbounded, as sums are)
+			if c, ok := constInt(x.Y); ok && c >= 0 && c < 62 && !uns {
+				if isInt, _, _ := intInfo(x.Type()); isInt {
+					return "(" + lit(int64(1)<<uint(c)) + " * " + g.lin(x.X) + ")"
+				}
+			}
+		case token.AND_NOT:
+			// x &^ (2^k - 1): x rounded down to a multiple of 2^k
+			if c, ok := constInt(x.Y); ok && c > 0 && c < (1<<61) && (c&(c+1)) == 0 {
+				if isInt, _, _ := intInfo(x.Type()); isInt {
+					return "(" + lit(c+1) + " * (" + g.lin(x.X) + " / " + lit(c+1) + "))"
+				}
+			}
 		case token.AND:
+			// x & (2^k - 1) = x mod 2^k
+			for _, pr := range [][2]ssa.Value{{x.X, x.Y}, {x.Y, x.X}} {
+				if c, ok := constInt(pr[1]); ok && c > 0 && c < (1<<61) && (c&(c+1)) == 0 {
+					if isInt, _, _ := intInfo(x.Type()); isInt {
+						return "(" + g.lin(pr[0]) + " % " + lit(c+1) + ")"
+					}
+				}
+			}
 			a := g.atom(v)
 			for _, o := range []ssa.Value{x.X, x.Y} {
 				if c, ok := constInt(o); ok && c >= 0 {
